@@ -98,8 +98,14 @@ func (c *Conn) Write(p []byte) (int, error) {
 	if c.FailWrite >= 0 && n == c.FailWrite {
 		return 0, faultErr{"memconn: injected write error"}
 	}
+	// A write that does not have to wait is not "pending": like a real
+	// connection it only fails if the deadline is in the past at the moment it
+	// is performed. Only a write blocked on a full pipe is interrupted by a
+	// deadline that passes (and is possibly cleared again) while it waits.
 	gen := c.wrGen
+	blocked := false
 	if c.wr.cap > 0 {
+		blocked = len(c.wr.buf) >= c.wr.cap
 		vs.Block("write "+c.name, func() bool {
 			return len(c.wr.buf) < c.wr.cap || c.closed || c.wr.closed || passed(c.writeDeadline) || c.wrGen != gen
 		})
@@ -109,7 +115,7 @@ func (c *Conn) Write(p []byte) (int, error) {
 	switch {
 	case c.closed || c.wr.closed:
 		return 0, io.ErrClosedPipe
-	case passed(c.writeDeadline) || c.wrGen != gen:
+	case passed(c.writeDeadline) || (blocked && c.wrGen != gen):
 		return 0, timeoutErr{}
 	}
 	c.wr.buf = append(c.wr.buf, p...)
